@@ -401,6 +401,8 @@ class Interp:
             return v[who] if isinstance(v, dict) else v
         if self.rand_symbols is not None and where in self.rand_symbols:
             v = self.rand_symbols[where]
+            if isinstance(v, dict):
+                v = v[who]
             self.rand_log.append(("tied", where, who, v))
             return v
         if not self.sym:
